@@ -15,10 +15,14 @@
    Tables (item codes pk_*, prec_of, is_binary_op, is_unary_op, is_value, binop_node_table,
    unop_node_table) are regenerated from the Go source by go/cmd/tablegen/parser.go.
 
-   Outside the model: a float literal whose decimal value is not exactly a float64 of
-   Model/Num.v's dyadic domain (NumLit.parse_float = None).  The parser then returns
-   [PCrash oom_float]; this is NOT a Go panic -- it marks the boundary of the model, the
-   correspondence harness skips such inputs and theorems exclude them.
+   Float literals: a literal whose decimal value is exactly a float64 of Model/Num.v's window
+   goes through NumLit.parse_float (the exact path the round-trip proofs of C17 use); every other
+   literal of the scanner's float syntax goes through NumLit.parse_float_round, the correctly
+   rounded conversion of strconv.ParseFloat (a value, or ErrRange -> t.error).  So the model is
+   total on every float item the scanner can send.  A float item whose text is NOT of the scanner's
+   float syntax (FRSyntax: no scanner sends one; tied by the token correspondence, not proved) is
+   taken to make ParseFloat fail; either outcome of the conversion leaves the parser state
+   unchanged, and no theorem about termination or consumption inspects the conversion.
    Definitions only. *)
 From Soy Require Import Model.Bytes Model.Num Model.Values Model.Ast Model.Token Model.NumLit Model.Quote Generated.Tables.
 Open Scope N_scope.
@@ -31,6 +35,7 @@ Definition c_unquote := Eval vm_compute in b "unquote".
 Definition c_mapkey := Eval vm_compute in b "map key is not a string".
 Definition c_unimplemented := Eval vm_compute in b "panic(string)".   (* panic("unimplemented"/"unreachable"): recovered into an error *)
 Definition m_slice := Eval vm_compute in b "slice bounds out of range".
+(* no longer returned (float literals are total since parse_float_round); kept for the harnesses that test for it *)
 Definition oom_float := Eval vm_compute in b "OUT-OF-MODEL: float literal outside the dyadic domain".
 
 (* t.errorf: the position is taken from the current token, taking account of backups *)
@@ -239,7 +244,12 @@ Definition new_value_node (lf : nat) (t : tok) (st : pst) : presult node :=
   else if ty =? pk_itemFloat then
     match parse_float (t_val t) with
     | Some f => POk (NFloat (t_pos t) f) st
-    | None => PCrash oom_float
+    | None =>
+        match parse_float_round (t_val t) with
+        | FRVal f => POk (NFloat (t_pos t) f) st
+        | FRRange => p_errorf c_number st
+        | FRSyntax => p_errorf c_number st
+        end
     end
   else if ty =? pk_itemString then
     match unquote_string (t_val t) with
